@@ -172,7 +172,14 @@ fn gen_addr09(rng: &mut Rng) -> u32 {
             }
         }
         7 => (*rng.pick(&PLAIN_EDGES)).wrapping_add(rng.range(0, 8) as u32).wrapping_sub(4),
-        8 => rng.u32() & 0xffffff,
+        8 => {
+            if rng.chance(1, 2) {
+                rng.u32() & 0xffffff
+            } else {
+                // an address constant of the emulator's current source text, or a neighbour
+                crate::util::source_number(rng) as u32
+            }
+        }
         _ => rng.u32(),
     }
 }
